@@ -484,7 +484,8 @@ func ensureStarted(c *drv.Ctx, root string) {
 	if c.In != nil {
 		return
 	}
-	c.In = inst.Start(root, inst.Opts{})
+	// one root per driver process: a successor process must not replay this one's WAL at start-up
+	c.In = inst.Start(fmt.Sprintf("%s.%d", root, os.Getpid()), inst.Opts{})
 	atomic.StoreUint32(&frontend.Queryable, 1)
 }
 
@@ -501,6 +502,9 @@ func c28tg(c *drv.Ctx, o *drv.Op) drv.Obs {
 		if b.Create {
 			names, types := []string{}, []string{}
 			for _, col := range b.Cols[1:] {
+				if x.Var && col.name() == "Nanoseconds" {
+					continue // the sub-second part of the row time, not a stored column
+				}
 				names = append(names, col.name())
 				types = append(types, col.Type)
 			}
@@ -522,6 +526,8 @@ func c28tg(c *drv.Ctx, o *drv.Op) drv.Obs {
 		}
 		csm.AddColumnSeries(*io.NewTimeBucketKey(b.Key), cs)
 	}
+	// commands left queued by an earlier, rejected write must not end up in this case's group
+	_ = c.In.WAL.FlushToWAL()
 	cap := &capture{}
 	prev := c.In.WAL.ReplicationSender
 	c.In.WAL.ReplicationSender = cap
